@@ -253,6 +253,15 @@ MUTANTS = [
     ("c14-inverted-degrees", ["C14"], "X2", H,
      "        # WRAPLITERAL\n        if degrees:\n            thetas *= 180 / np.pi",
      "        # WRAPLITERAL\n        if not degrees:\n            thetas *= 180 / np.pi"),
+    ("c14-sphere-through-squeeze-axis", ["C14", "C04"], "SH2", C,
+     "    center = np.squeeze(t_ctr + p0, axis=-2)",
+     "    center = np.squeeze(t_ctr + p0, axis=-1)"),
+    ("c14-circle-angles-index", ["C14", "C04"], "SH2", C,
+     "    ys = (coords - np.expand_dims(center, axis=-2))[..., 1]",
+     "    ys = (coords - np.expand_dims(center, axis=-2))[..., 2]"),
+    ("c14-arc-include-newaxis", ["C14", "C04"], "SH2", C,
+     "    s_reference = np.expand_dims(reference_theta - thetas[..., 0],\n                                 axis=-1)",
+     "    s_reference = np.expand_dims(reference_theta - thetas[..., 0],\n                                 axis=0)"),
     # ---- C15
     ("c15-drop-reflection-guard", ["C15"], "R1", H,
      "        if (np.abs(eval_differences) > ERROR_THRESHOLD).any():\n            raise GeometryError(\"Not a reflection matrix\")\n",
